@@ -115,6 +115,7 @@ func checkC09(c *Check) {
 	p := c.P
 	c.rendezvousChannels("C09.5 progress-approved-by-manager", "transitionCh")
 	c.disableEnablePairing("C09.4 recorded-state-current")
+	c.fsmContracts("C09.3 fsm-effects")
 	c.holdTimerRestartDiscipline("C09.5 legal-progress-does-not-block")
 	c.readerFraming("C09.1 framing")
 	c.notificationEncode("C09.2 notification-encode")
